@@ -1,0 +1,133 @@
+//! Scalar interpretation hooks (parse_scalars.rs, base64.rs, tags.rs).
+use crate::Location;
+use crate::parse_scalars as ps;
+use crate::tags::SfTag;
+use saphyr_parser::ScalarStyle;
+
+/// style codes: 0 plain, 1 single, 2 double, 3 literal, 4 folded
+pub fn style_of(code: u8) -> ScalarStyle {
+    match code {
+        0 => ScalarStyle::Plain,
+        1 => ScalarStyle::SingleQuoted,
+        2 => ScalarStyle::DoubleQuoted,
+        3 => ScalarStyle::Literal,
+        _ => ScalarStyle::Folded,
+    }
+}
+
+pub fn style_code(style: &ScalarStyle) -> u8 {
+    match style {
+        ScalarStyle::Plain => 0,
+        ScalarStyle::SingleQuoted => 1,
+        ScalarStyle::DoubleQuoted => 2,
+        ScalarStyle::Literal => 3,
+        ScalarStyle::Folded => 4,
+    }
+}
+
+pub fn parse_int_signed(width: u32, s: &str, legacy_octal: bool) -> Option<i128> {
+    let l = Location::UNKNOWN;
+    match width {
+        8 => ps::parse_int_signed::<i8>(s, "i8", l, legacy_octal).ok().map(i128::from),
+        16 => ps::parse_int_signed::<i16>(s, "i16", l, legacy_octal).ok().map(i128::from),
+        32 => ps::parse_int_signed::<i32>(s, "i32", l, legacy_octal).ok().map(i128::from),
+        64 => ps::parse_int_signed::<i64>(s, "i64", l, legacy_octal).ok().map(i128::from),
+        _ => ps::parse_int_signed::<i128>(s, "i128", l, legacy_octal).ok(),
+    }
+}
+
+pub fn parse_int_unsigned(width: u32, s: &str, legacy_octal: bool) -> Option<u128> {
+    let l = Location::UNKNOWN;
+    match width {
+        8 => ps::parse_int_unsigned::<u8>(s, "u8", l, legacy_octal).ok().map(u128::from),
+        16 => ps::parse_int_unsigned::<u16>(s, "u16", l, legacy_octal).ok().map(u128::from),
+        32 => ps::parse_int_unsigned::<u32>(s, "u32", l, legacy_octal).ok().map(u128::from),
+        64 => ps::parse_int_unsigned::<u64>(s, "u64", l, legacy_octal).ok().map(u128::from),
+        _ => ps::parse_int_unsigned::<u128>(s, "u128", l, legacy_octal).ok(),
+    }
+}
+
+pub fn parse_yaml11_bool(s: &str) -> Option<bool> {
+    ps::parse_yaml11_bool(s).ok()
+}
+
+pub fn parse_f64(s: &str) -> Option<u64> {
+    ps::parse_yaml12_float::<f64>(s, Location::UNKNOWN, SfTag::None, false)
+        .ok()
+        .map(f64::to_bits)
+}
+
+pub fn parse_f32(s: &str) -> Option<u32> {
+    ps::parse_yaml12_float::<f32>(s, Location::UNKNOWN, SfTag::None, false)
+        .ok()
+        .map(f32::to_bits)
+}
+
+pub fn scalar_is_nullish(s: &str, style: u8) -> bool {
+    ps::scalar_is_nullish(s, &style_of(style))
+}
+
+pub fn scalar_is_nullish_for_option(s: &str, style: u8) -> bool {
+    ps::scalar_is_nullish_for_option(s, &style_of(style))
+}
+
+pub fn maybe_not_string(s: &str, style: u8) -> bool {
+    ps::maybe_not_string(s, &style_of(style))
+}
+
+pub fn leading_zero_decimal(s: &str) -> bool {
+    ps::leading_zero_decimal(s)
+}
+
+pub fn decode_base64_yaml(s: &str) -> Option<Vec<u8>> {
+    crate::base64::decode_base64_yaml(s).ok()
+}
+
+/// Tag class code in declaration order of `SfTag` (None = 0 … Other = 13).
+pub(crate) fn tag_code(t: SfTag) -> u8 {
+    match t {
+        SfTag::None => 0,
+        SfTag::Int => 1,
+        SfTag::Float => 2,
+        SfTag::Bool => 3,
+        SfTag::Null => 4,
+        SfTag::Seq => 5,
+        SfTag::Map => 6,
+        SfTag::TimeStamp => 7,
+        SfTag::Binary => 8,
+        SfTag::String => 9,
+        SfTag::NonSpecific => 10,
+        SfTag::Degrees => 11,
+        SfTag::Radians => 12,
+        SfTag::Other => 13,
+    }
+}
+
+pub fn tag_can_parse_into_string(code: u8) -> bool {
+    let all = [
+        SfTag::None,
+        SfTag::Int,
+        SfTag::Float,
+        SfTag::Bool,
+        SfTag::Null,
+        SfTag::Seq,
+        SfTag::Map,
+        SfTag::TimeStamp,
+        SfTag::Binary,
+        SfTag::String,
+        SfTag::NonSpecific,
+        SfTag::Degrees,
+        SfTag::Radians,
+        SfTag::Other,
+    ];
+    all[code as usize % all.len()].can_parse_into_string()
+}
+
+/// Tag class code for a raw tag string as the parser's `Tag` prints it (`None` = untagged).
+pub fn tag_lookup(handle: &str, suffix: &str) -> u8 {
+    let t = saphyr_parser::Tag {
+        handle: handle.to_string(),
+        suffix: suffix.to_string(),
+    };
+    tag_code(SfTag::from_optional_cow(&Some(std::borrow::Cow::Owned(t))))
+}
